@@ -51,7 +51,7 @@ SerOk(i) == LET v == MS!WeekVerdicts(Week(i))
                 accY == Trace[i].ser[2] = 1 IN
             /\ (j = 1 => "accept" \in v) /\ (j = 0 => "reject" \in v)
             /\ (accY => "accept" \in v) /\ (~accY => "reject" \in v)
-            /\ Trace[i].ser[3] = 1          \* accepted schedules survived every round trip
+            /\ Trace[i].ser[3] = 1          \* accepted: survived every round trip; rejected: receiver untouched
 
 Ok(i) == CASE Trace[i].k = "eval"  -> EvalOk(i)
            [] Trace[i].k = "build" -> BuildOk(i)
